@@ -8,6 +8,7 @@ R4c  conversions of classes with public mutators return only fresh objects
 from __future__ import annotations
 
 import ast
+import os
 
 from ..av import loc_str
 from ..effects import writes, returned_operand_aliases, cache_elems, written_field, chain_strs, operand_root
@@ -26,7 +27,7 @@ EXPLANATION = (
     "(Regex._counter) is outside the shape rules.")
 
 
-def run(eng, rep, tier):
+def run(eng, rep, tier, part=None):
     prog, interp = eng.prog, eng.interp
     rep.explanation = EXPLANATION
     rep.assumptions = [
@@ -40,7 +41,11 @@ def run(eng, rep, tier):
     unresolved_sites = {}
     seen_write_keys = set()
     cache_writes = []          # (entry, ev, chain, loc)
-    for cq, fi in public_entries(eng):
+    all_entries = list(public_entries(eng))
+    jobs = int(os.environ.get("VERIF_JOBS", "0") or 0) or min(16, os.cpu_count() or 1)
+    if jobs > 1 and len(all_entries) > 40 and not os.environ.get("VERIF_NO_FORK"):
+        return run_parallel(eng, rep, tier, all_entries, jobs)
+    for cq, fi in all_entries:
         n_entries += 1
         summ = interp.run_entry(fi, cq)
         ename = "%s.%s" % (prog.classes[cq].name, fi.name)
@@ -75,6 +80,8 @@ def run(eng, rep, tier):
         check_r4c(eng, rep, cq, fi, summ, ename)
     # module-level public functions
     for fq, fi in sorted(prog.functions.items()):
+        if part is not None and part[0] != 0:
+            break
         if fi.cls is not None or not is_public_name(fi.name) or isinstance(fi.node, ast.Lambda):
             continue
         n_entries += 1
@@ -103,10 +110,67 @@ def run(eng, rep, tier):
     for (func, text, note), ename in sorted(unresolved_sites.items()):
         rep.error("R4a", "C19.R4a", func, "unresolved:" + text[:60],
                   "construct not understood on a path of entry point %s: %s (%s)" % (ename, text, note))
-    check_r4b(eng, rep, cache_writes)
-    check_property_purity_listing(eng, rep)
+    check_r4b(eng, rep, cache_writes, structural=(part is None or part[0] == 0))
+    if part is None or part[0] == 0:
+        check_property_purity_listing(eng, rep)
     rep.stats.update(eng.stats())
     rep.stats.update({"entry_points": n_entries, "mutator_table": mutator_listing,
+                      "cache_fields": {k: v[0] for k, v in CACHE_FIELDS.items()},
+                      "accumulator_params_excluded": sorted("%s(%s)" % a for a in ACCUMULATOR_PARAMS),
+                      "navigation_accessors_excluded": sorted(NAVIGATION_ACCESSORS)})
+    rep.floor = 300
+
+
+_PAR = {}
+
+
+def _worker(idx):
+    """Child process (forked after the engine was built): run the whole rule on a slice of the entry points and hand
+    back plain results."""
+    from ..report import Report
+    eng, entries, jobs, tier = _PAR["eng"], _PAR["entries"], _PAR["jobs"], _PAR["tier"]
+    os.environ["VERIF_NO_FORK"] = "1"
+    sub = Report("C19", tier)
+    mine = entries[idx::jobs]
+    orig = globals()["public_entries"]
+    globals()["public_entries"] = lambda e, classes=None, include_mutators=False: iter(mine)
+    try:
+        run(eng, sub, tier, part=(idx, jobs))
+    finally:
+        globals()["public_entries"] = orig
+    out = []
+    for r in sub.results:
+        out.append(dict(rule=r.rule, oblig=r.oblig, function=r.function, role=r.role, verdict=r.verdict, what=r.what,
+                        site=r.site, path=r.path, nontrivial=r.nontrivial, detail={k: str(v) for k, v in r.detail.items()}))
+    return out, sub.stats.get("entry_points", 0), dict(eng.interp.stats)
+
+
+def run_parallel(eng, rep, tier, entries, jobs):
+    import multiprocessing as mp
+    _PAR.update(eng=eng, entries=entries, jobs=jobs, tier=tier)
+    ctx = mp.get_context("fork")
+    with ctx.Pool(jobs) as pool:
+        parts = pool.map(_worker, range(jobs))
+    seen = set()
+    n_entries = 0
+    agg = {}
+    for results, n, st in parts:
+        n_entries += n
+        for k, v in st.items():
+            agg[k] = agg.get(k, 0) + v
+        for r in results:
+            key = (r["rule"], r["oblig"], r["function"], r["role"], r["verdict"])
+            if key in seen:
+                continue
+            seen.add(key)
+            rep.add(r["rule"], r["oblig"], r["function"], r["role"], r["verdict"], r["what"], site=r["site"],
+                    path=r["path"], nontrivial=r["nontrivial"])
+    st = eng.stats()
+    st["functions_analysed"] = agg.get("functions_analysed", 0)
+    st["summary_cache_hits"] = agg.get("memo_hits", 0)
+    rep.stats.update(st)
+    rep.stats.update({"entry_points": n_entries, "worker_processes": jobs,
+                      "mutator_table": {short_fn(k + ".x")[:-2]: v for k, v in MUTATORS.items()},
                       "cache_fields": {k: v[0] for k, v in CACHE_FIELDS.items()},
                       "accumulator_params_excluded": sorted("%s(%s)" % a for a in ACCUMULATOR_PARAMS),
                       "navigation_accessors_excluded": sorted(NAVIGATION_ACCESSORS)})
@@ -228,7 +292,7 @@ def _loc_is_mutable_machine(eng, cq, fi, l, is_container_conv):
 
 
 # --------------------------------------------------------------------------- R4b
-def check_r4b(eng, rep, cache_writes):
+def check_r4b(eng, rep, cache_writes, structural=True):
     prog = eng.prog
     seen = set()
     n = {"D1": 0, "D2": 0, "D3": 0, "D4": 0, "D5": 0, "scratch": 0}
@@ -262,10 +326,11 @@ def check_r4b(eng, rep, cache_writes):
         else:
             rep.holds("R4b", "C19.R4b-scratch", ev.site.func, "scratch-write:" + fieldname,
                       "write to declared scratch field (no answer is read from it across calls)", nontrivial=False)
-    check_d2(eng, rep, d2_events)
-    check_d3(eng, rep)
-    check_d4(eng, rep)
-    check_d5_reads(eng, rep)
+    check_d2(eng, rep, d2_events, report_none=structural)
+    if structural:
+        check_d3(eng, rep)
+        check_d4(eng, rep)
+        check_d5_reads(eng, rep)
     rep.stats["cache_write_sites"] = n
 
 
@@ -327,7 +392,7 @@ def _has_none_guard(ev) -> bool:
     return False
 
 
-def check_d2(eng, rep, d2_events):
+def check_d2(eng, rep, d2_events, report_none=True):
     """scratch-restore: every in-place update of the shared counters CFG._remaining_lists (reached through any alias:
     the write events carry the location) is undone on every path to every exit of the function that performs it."""
     prog = eng.prog
@@ -360,7 +425,7 @@ def check_d2(eng, rep, d2_events):
         else:
             rep.violation("R4b", "C19.R4b-D2", fq, "scratch-restore:_remaining_lists", why,
                           site=site_of(prog, fi, node or fi.node), path=[evs[0][0]])
-    if n == 0:
+    if n == 0 and report_none:
         rep.holds("R4b", "C19.R4b-D2", CFG + "._get_generating_or_nullable", "scratch-restore:none",
                   "no in-place update of the shared counters exists (they are copied first)", nontrivial=False)
 
